@@ -210,6 +210,10 @@ func Open(ctx context.Context, S3 S3Interface, cfg Config, opts OpenOptions, whe
 		if err != nil {
 			return nil, err
 		}
+		// Between this listing and the reads below, a concurrent commit can
+		// retire a listed version: it is then found under merged/, where a
+		// version is stored before it is removed from current/.
+		persists = []mast.Persist{rootPersist, mergedPersist}
 		skipUnreadable = true
 	}
 	tree, mergedRoots, unmergeableRoots, err = mergeRoots(ctx, versionsToLoad, cfg, crdtConfig, persists, when, opts.ForceRebranch, &kvVersion, skipUnreadable)
